@@ -1381,6 +1381,33 @@ fn c06_gen_hostile(seed: u64, run: u64, thorough: bool, flood: bool) -> Plan {
 fn c06_gen_hostile_stream(seed: u64, run: u64, thorough: bool) -> Plan {
     c06_gen_hostile(seed, run, thorough, false)
 }
+/// A packet that grows: one packet of 52-100 % of the victim's limit arrives fragment by
+/// fragment in ascending order and never completes (what a uflow sender does when the last
+/// frame is lost), against limits of 20 kB .. 4 MB.
+fn c06_gen_growing(seed: u64, run: u64, thorough: bool) -> Plan {
+    let mut plan = c06_gen_hostile(seed, run | 1, thorough, false);
+    plan.scenario = "a_growing_packet".into();
+    plan.run = run;
+    let mut r = Rng::keyed(&[seed, run, 0xc06_7]);
+    let limit = *r.pick(&[20_000u64, 65_536, 100_000, 300_000, 1_000_000, 1_000_000, 4_000_000]) + r.below(3000);
+    for i in 0..2 {
+        if let EndpointKind::Hc { spec, .. } = &mut plan.endpoints[i].kind {
+            if i == 0 {
+                spec.rx_alloc_limit = limit;
+            } else {
+                spec.tx_alloc_limit = limit;
+            }
+        }
+    }
+    plan.params.insert("growing_permille".into(), r.range(520, 1000) as f64);
+    plan.params.insert("hostile_focus".into(), 7.0);
+    plan.params.insert("hostile_max".into(), ((limit / 1448) + 50) as f64);
+    plan.params.remove("hc_lazy_reader_permille");
+    plan
+}
+fn c06_claims_growing(run: u64) -> bool {
+    (4000..4200).contains(&run) || (run >= 4200 && run % 16 == 7)
+}
 fn c06_gen_flood(seed: u64, run: u64, thorough: bool) -> Plan {
     c06_gen_hostile(seed, run, thorough, true)
 }
@@ -1415,12 +1442,14 @@ pub fn c06() -> CheckDef {
                 what: "real Client/Server with receive allocations 2 kB..4 MB: the limit each sender uses is the one its peer advertised in the handshake, and is respected" },
             Family { name: "a_hostile_stream", world: "A", weight: 300, gen: c06_gen_hostile_stream, oracles: c06_oracles_receiver, adversary: Some(c06_adv), claims: None, keep_workload: false, custom: None,
                 what: "victim receiver (limit 1 byte..4 MB) against a hostile stream: fragment counts up to 65536, ids inside/outside the window, never-completing packets, inconsistent parent leads, any read cadence; heap bytes attributed to the victim (allocator measurement) stay within the rounded limit plus a constant bookkeeping budget" },
+            Family { name: "a_growing_packet", world: "A", weight: 0, gen: c06_gen_growing, oracles: c06_oracles_receiver, adversary: Some(c06_adv), claims: Some(c06_claims_growing), keep_workload: false, custom: None,
+                what: "victim receiver (limit 20 kB .. 4 MB) against one packet of 52-100 % of its limit that arrives in full fragments in ascending order, one per frame, and never completes (runs 4000-4199 and every 16th after them): heap bytes attributed to the victim stay within the rounded limit plus the bookkeeping budget while the packet grows" },
             Family { name: "a_ack_queue_flood", world: "A", weight: 30, gen: c06_gen_flood, oracles: c06_oracles_receiver, adversary: Some(c06_adv), claims: None, keep_workload: false, custom: None,
                 what: "victim with a 1472 B/s ceiling flooded with empty data frames whose ids are 32 apart, so that every frame opens a new acknowledgement group faster than they can be sent" },
         ],
         panic_is_violation: panics_in_packet_sender,
         hang_is_violation: false,
-        quick_runs: 4000,
+        quick_runs: 4200,
         thorough_runs: 50_000,
         rule: "one case = one simulated run; distinct = distinct run digest; non-trivial = at least 10 limit checks (sender half) or 10 heap measurements after hostile traffic (receiver half)",
         real_code: REAL_A,
